@@ -182,16 +182,29 @@ def local_fault_hook(k, base: Path, kinds=("open-w", "mkdir", "link", "remove", 
     return hook, state
 
 
+def path_fault_hook(suffix, kinds=("open-w",)):
+    """raise EIO whenever the mutation targets a path ending in [suffix] (schedule independent)"""
+    state = {"hit": None}
+
+    def hook(kind, paths, idx):
+        if kind in kinds and paths[0].endswith(suffix):
+            state["hit"] = (kind, paths)
+            raise OSError(errno.EIO, "injected I/O error", paths[0])
+    return hook, state
+
+
 def files_of(scn):
     return {r["url"]: P.render_upstream(r["version"])[0] for r in scn.repos}
 
 
-def run_observed(scn, base, plan=None, files_by_url=None, local_fault=None, trace=False, gate=None):
+def run_observed(scn, base, plan=None, files_by_url=None, local_fault=None, trace=False, gate=None, path_fault=None):
     files_by_url = files_by_url or files_of(scn)
     faults = realise_plan(plan or {}, files_by_url)
     hook = state = None
     if local_fault:
         hook, state = local_fault_hook(local_fault, base)
+    elif path_fault:
+        hook, state = path_fault_hook(path_fault)
     with Instrument() as inst:
         res = P.run_tool(scn, base, faults=faults, on_event=hook, trace=trace or bool(hook), gate=gate,
                          upstream_files=files_by_url)
